@@ -131,7 +131,8 @@ def run(ctx):
                         "uninitialised local whose address is passed out is written by the callee on every path")
     res.rule("C20-R5", "padding and gaps are explicit: frames are padded with explicit zeros (C07-R1) and builders write every byte they advance over (C13-R3)")
     res.rule("C20-R6", "no foreign memory: bytes reach a decoded packet only through in-bounds reads — the message-level bounds of C03-R4 and the "
-                        "view / pair / construction / copy obligations of C02 (R1, R1p, R2, R3) over all decode-reachable code")
+                        "view / pair / construction / copy obligations of C02 (R1, R1p, R2, R3) over all decode-reachable code; on the build side setData copies "
+                        "exactly the caller's (data, length) pair (C13-R1)")
     res.assumptions += ["memory the caller passes in is defined", "std::vector(n) and resize(n) value-initialise their elements (libstdc++)"]
     res.not_decided += ["anything about memory the caller passes in"]
 
@@ -293,6 +294,10 @@ def run(ctx):
     for o in sub13.obligations:
         if o["rule"] == "C13-R3":
             res.check(o["ok"], "C20-R5", "builders:" + o["key"], o["loc"], o["detail"])
+        elif o["rule"] == "C13-R1" and (o["key"].endswith("setData:forward") or o["key"].startswith("setData<")):
+            # the builders read exactly the (data, length) pair the caller handed in: a length rounded up or recomputed on the way to the
+            # copy reads memory behind the caller's buffer into the payload
+            res.check(o["ok"], "C20-R6", "builders:" + o["key"], o["loc"], o["detail"])
     # ---- R6 copies out of caller-supplied buffers are bounded (C03-R4: message level)
     from rules import c03
     sub03 = c03.run(ctx)
